@@ -1331,11 +1331,11 @@ CHECKS = {
     "C16": {"level": "model_checking", "run": run_C16, "assumptions": ASSUME_COMMON,
             "rule": "the C15 programs: in the specification Assemble(desc(HL(p))) is computed and the RoundTrip law (identity on expressible programs, canonical form whenever accepted) is an invariant of MC_Text; on the implementation assemble(join(to_insn_vec(p).desc)) must give exactly the specified bytes / refusal; distinct by byte string"},
     "C12": {"level": "model_checking", "run": run_C12, "assumptions": ASSUME_COMMON + ["hook H2 reports the JIT's counted / emitted / buffer sizes"],
-            "rule": "every accepted program of the MC_Safety universe (all programs up to MaxLen slots over 30 templates: dead code, back edges, last-instruction kinds, wide loads, helper and local calls) compiled twice with the x86-64 JIT on the 4 VM kinds and with Cranelift, with helper sets {} and {1}; expected Ok/Err from Verifier!CompileOk; seeded random accepted programs (arbitrary opcodes / registers / displacements) validated by TLC (TraceCompile); size ladder 1..999,999 instructions incl. every size around the code buffer's first page boundary; non-trivial = accepted programs"},
+            "rule": "every accepted program of the MC_Safety universe (all programs up to MaxLen slots over 32 templates: dead code, back edges, last-instruction kinds, wide loads, helper and local calls) compiled twice with the x86-64 JIT on the 4 VM kinds and with Cranelift, with helper sets {} and {1}; expected Ok/Err from Verifier!CompileOk; seeded random accepted programs (arbitrary opcodes / registers / displacements) validated by TLC (TraceCompile); size ladder 1..999,999 instructions incl. every size around the code buffer's first page boundary; non-trivial = accepted programs"},
     "C10": {"level": "model_checking", "run": run_C10, "assumptions": ASSUME_COMMON,
             "rule": "VmApi.tla explored completely (all histories over the finite abstract state: 8 programs x 4 verifiers x compiled artefacts x helper x calculator x layout) for each VM kind with invariants RunsLatestLoaded, LoadedWasVerified, NoProgIsError, NotCompiledIsError and the action property FailedCallIsNoOp; binding: seeded random histories of 30 calls over {new, set_program(valid|invalid|valid-for-other-verifier, layout), set_verifier, register_helper, set_stack_usage_calculator, jit_compile, cranelift_compile, execute x3 engines x2 packets} on real VM objects of each kind, every call and result validated by TraceApi.tla; plus a transition cover: every transition of the abstract state graph (MC_VmApiTour, 250-772 states, 6-28 k transitions per kind) is taken at least once by call sequences planned by lib/tour.py, performed on real objects and validated the same way; 4 packets (two addresses, same address with another length, empty); non-trivial = histories"},
     "C05": {"level": "model_checking", "run": run_C05, "assumptions": ASSUME_COMMON,
-            "rule": "MC_Safety: every program of 1..MaxLen slots over 30 instruction templates on the verifier's rule boundaries, explored under the control-flow abstraction MachineCF (all inputs, helper sets and budgets: branches, accesses and helper calls go both ways), invariant: accepted => never stuck; soundness of the abstraction checked as a refinement (Machine => MachineCF) on the concrete case families; every program is replayed through the real verifier and, if accepted, run on the real interpreter under a budget; non-trivial = accepted programs"},
+            "rule": "MC_Safety: every program of 1..MaxLen slots over 32 instruction templates on the verifier's rule boundaries, explored under the control-flow abstraction MachineCF (all inputs, helper sets and budgets: branches, accesses and helper calls go both ways), invariant: accepted => never stuck; soundness of the abstraction checked as a refinement (Machine => MachineCF) on the concrete case families; every program is replayed through the real verifier and, if accepted, run on the real interpreter under a budget; non-trivial = accepted programs"},
     "C06": {"level": "model_checking", "run": run_C06, "assumptions": ASSUME_COMMON,
             "rule": "MC_Verdict: 256 opcode bytes x register bytes x 5 positions, every jump/local-call opcode x displacement around program bounds and a wide load (incl. displacements beyond 16 bits), le/be/xadd/call immediates and call kinds, length classes up to 1,000,002 slots with trailing bytes, far targets in long programs; plus the MC_Safety universe; Verifier!Verdict decides; replayed through new() and set_program() of the four VM kinds; direction A: every verdict the default verifier gave while /repo's own tests ran (hook H4) validated by TraceVerdict.tla; distinct by id tuple"},
     "C07": {"level": "model_checking", "run": run_C07, "assumptions": ASSUME_COMMON,
